@@ -360,17 +360,23 @@ fn plan_inner(prop: &str, tier: &str) -> Option<Plan> {
             })
         }
         "C16" => Some(Plan {
-            jobs: vec![
-                job(prop, "progsweep", "sync", tier, json!({"hooks": true})),
-                job(prop, "progsweep", "sync", tier, json!({"hooks": false})),
-            ],
+            jobs: {
+                let mut jobs = vec![
+                    job(prop, "progsweep", "sync", tier, json!({"hooks": true})),
+                    job(prop, "progsweep", "sync", tier, json!({"hooks": false})),
+                ];
+                for f in ALL {
+                    jobs.extend(sharded(prop, "confine", f, tier, json!({"max": if tier == "quick" { 8192 } else { 65536 }}), 4));
+                }
+                jobs
+            },
             level: "exploration".into(),
-            rule: "the full lattice of auto-trait classes {Send+Sync, Send+!Sync, !Send+Sync, !Send+!Sync}^3 for (K, N, E), two structurally different witness types per class, x {Node, Edge, Graph} of the four flavours x {Send, Sync}: one probe program turns every obligation into a constant decided by the compiler's trait solver and the table is compared with the biconditional; plus universally quantified obligations (generic over K, N, E) that must type-check (positive) or be rejected with E0277 (negative), each compiled separately; built against the working tree with hooks on and off. evaluations = table entries + generic obligations; nontrivial = entries with at least one non-Send+Sync payload + generic obligations".into(),
+            rule: "the full lattice of auto-trait classes {Send+Sync, Send+!Sync, !Send+Sync, !Send+!Sync}^3 for (K, N, E), two structurally different witness types per class, x {Node, Edge, Graph} of the four flavours x {Send, Sync}: one probe program turns every obligation into a constant decided by the compiler's trait solver and the table is compared with the biconditional; plus universally quantified obligations (generic over K, N, E) that must type-check (positive) or be rejected with E0277 (negative), each compiled separately; built against the working tree with hooks on and off. Thread confinement (engine confine): K, N, E instantiated with types that are neither Send nor Sync and record the thread of every trait-method call (Clone, Drop, Eq, Ord, Hash, Display, Serialize, Deserialize); the whole container / node API is called from one thread on star graphs with 1..40 spokes and every power of two +-1 up to 8192 (quick) / 65536 (thorough), on all four flavours; no payload method may run on another thread. evaluations = table entries + generic obligations + API calls watched; nontrivial = entries with at least one non-Send+Sync payload + generic obligations".into(),
             bounds: json!({"classes": 64, "witness_families": 2, "types": 12, "traits": 2, "generic_obligations": "see counters"}),
             exhaustive: true,
             assumptions: vec![
                 "trait bounds in gdsl mention no trait that separates two witnesses of the same auto-trait class".into(),
-                "the last clause of the property (no safe program can race on a payload) is the standard meaning of Send/Sync and is not separately explored".into(),
+                "the last clause of the property (no safe program can race on a payload) follows from the Send/Sync table for code outside the library; for the library's own code it is watched dynamically (engine confine) on the stated size family only".into(),
             ],
         }),
         "C18" => {
@@ -503,6 +509,7 @@ pub fn work(job: &Job, out: &mut Out) {
         "seqx" => crate::with_flavor!(job.flavour.as_str(), F => seqx::explore::<F>(job, out)),
         "gsweep" => crate::with_flavor!(job.flavour.as_str(), F => gsweep::sweep::<F>(job, out)),
         "csweep" => crate::with_flavor!(job.flavour.as_str(), F => csweep::sweep::<F>(job, out)),
+        "confine" => crate::confine::sweep(job, out),
         "sched" => crate::with_sync_flavor!(job.flavour.as_str(), F => sched::sweep::<F>(job, out)),
         "docsweep" => docsweep::sweep(job, out),
         "loopx" => crate::with_flavor!(job.flavour.as_str(), F => loopx::sweep::<F>(job, out)),
@@ -529,6 +536,7 @@ pub fn replay(property: &str, engine: &str, flavour: &str, case: &Value) -> Vec<
         "seqx" => crate::with_flavor!(flavour, F => seqx::replay::<F>(property, case)),
         "gsweep" => crate::with_flavor!(flavour, F => gsweep::replay::<F>(property, case)),
         "csweep" => crate::with_flavor!(flavour, F => csweep::replay::<F>(property, case)),
+        "confine" => crate::confine::replay(property, case),
         "sched" => crate::with_sync_flavor!(flavour, F => sched::replay::<F>(property, case)),
         "docsweep" => docsweep::replay(property, case),
         "loopx" => crate::with_flavor!(flavour, F => loopx::replay::<F>(property, case)),
